@@ -66,15 +66,15 @@ structure SameCore (s s' : St) : Prop where
   lostPending : s'.lostPending = s.lostPending
   lostMid : s'.lostMid = s.lostMid
   recon : s'.recon = s.recon
-  consumers : s'.consumers = s.consumers
+  consumers : s'.consumers ≤ s.consumers
   cfg : s'.cfg = s.cfg
 
-theorem SameCore.refl (s : St) : SameCore s s := ⟨rfl, rfl, rfl, rfl, rfl, rfl, rfl⟩
+theorem SameCore.refl (s : St) : SameCore s s := ⟨rfl, rfl, rfl, rfl, rfl, Nat.le_refl _, rfl⟩
 
 theorem SameCore.trans {a b c : St} (h1 : SameCore a b) (h2 : SameCore b c) : SameCore a c :=
   ⟨h2.connected.trans h1.connected, h2.producers.trans h1.producers, h2.lostPending.trans h1.lostPending,
    h2.lostMid.trans h1.lostMid, h2.recon.trans h1.recon,
-   h2.consumers.trans h1.consumers, h2.cfg.trans h1.cfg⟩
+   Nat.le_trans h2.consumers h1.consumers, h2.cfg.trans h1.cfg⟩
 
 theorem Inv.of_same {s s' : St} (h : Inv s) (c : SameCore s s') : Inv s' := by
   constructor
@@ -84,24 +84,24 @@ theorem Inv.of_same {s s' : St} (h : Inv s) (c : SameCore s s') : Inv s' := by
   · rw [c.connected, c.producers]; exact h.disc_prod
   · rw [c.connected, c.lostPending]; exact h.disc_lp
   · rw [c.lostMid, c.recon]; exact h.mid_recon
-  · rw [c.consumers, c.cfg]; exact h.cons_le
+  · rw [c.cfg]; exact Nat.le_trans c.consumers h.cons_le
 
 theorem same_latch (s : St) : SameCore s (latch s) := by
   unfold latch; split
   · split
-    · exact ⟨rfl, rfl, rfl, rfl, rfl, rfl, rfl⟩
+    · exact ⟨rfl, rfl, rfl, rfl, rfl, Nat.le_refl _, rfl⟩
     · exact SameCore.refl s
   · exact SameCore.refl s
 
 theorem same_handle (s : St) (f : Feed) : SameCore s (handle s f).1 := by
-  cases f <;> exact ⟨rfl, rfl, rfl, rfl, rfl, rfl, rfl⟩
+  cases f <;> exact ⟨rfl, rfl, rfl, rfl, rfl, Nat.le_refl _, rfl⟩
 
 theorem same_park (s : St) (t : Target) : SameCore s (park s t) := by
-  cases t <;> exact ⟨rfl, rfl, rfl, rfl, rfl, rfl, rfl⟩
+  cases t <;> exact ⟨rfl, rfl, rfl, rfl, rfl, Nat.le_refl _, rfl⟩
 
 theorem same_setupGo (s : St) : SameCore s (setupGo s).1 := by
   unfold setupGo; split
-  · exact ⟨rfl, rfl, rfl, rfl, rfl, rfl, rfl⟩
+  · exact ⟨rfl, rfl, rfl, rfl, rfl, Nat.le_refl _, rfl⟩
   · exact SameCore.refl s
 
 theorem same_fireSetup (s : St) (a : Nat) : SameCore s (fireSetup s a).1 := by
@@ -109,8 +109,106 @@ theorem same_fireSetup (s : St) (a : Nat) : SameCore s (fireSetup s a).1 := by
   split
   · exact SameCore.refl s
   · split
-    · split <;> exact ⟨rfl, rfl, rfl, rfl, rfl, rfl, rfl⟩
+    · split <;> exact ⟨rfl, rfl, rfl, rfl, rfl, Nat.le_refl _, rfl⟩
     · exact SameCore.refl s
+
+
+/-! ### the frame consumers touch nothing of the connection machinery -/
+
+/-- a step of the frame consumers (take a frame, finish it, a subscriber returns, a gate is set
+up): the connection side is untouched; only consumers may exit -/
+structure Frames (s s' : St) : Prop where
+  connected : s'.connected = s.connected
+  producers : s'.producers = s.producers
+  lostPending : s'.lostPending = s.lostPending
+  lostMid : s'.lostMid = s.lostMid
+  recon : s'.recon = s.recon
+  consumers : s'.consumers ≤ s.consumers
+  cfg : s'.cfg = s.cfg
+  writer : s'.writer = s.writer
+  wopen : s'.wopen = s.wopen
+  closing : s'.closing = s.closing
+  now : s'.now = s.now
+  writeQ : s'.writeQ = s.writeQ
+  pphase : s'.pphase = s.pphase
+  script : s'.script = s.script
+  rcOn : s'.rcOn = s.rcOn
+
+theorem Frames.refl (s : St) : Frames s s :=
+  ⟨rfl, rfl, rfl, rfl, rfl, Nat.le_refl _, rfl, rfl, rfl, rfl, rfl, rfl, rfl, rfl, rfl⟩
+
+theorem Frames.trans {a b c : St} (h1 : Frames a b) (h2 : Frames b c) : Frames a c :=
+  ⟨h2.connected.trans h1.connected, h2.producers.trans h1.producers, h2.lostPending.trans h1.lostPending,
+   h2.lostMid.trans h1.lostMid, h2.recon.trans h1.recon, Nat.le_trans h2.consumers h1.consumers,
+   h2.cfg.trans h1.cfg, h2.writer.trans h1.writer, h2.wopen.trans h1.wopen, h2.closing.trans h1.closing,
+   h2.now.trans h1.now, h2.writeQ.trans h1.writeQ, h2.pphase.trans h1.pphase, h2.script.trans h1.script,
+   h2.rcOn.trans h1.rcOn⟩
+
+theorem Frames.same {s s' : St} (f : Frames s s') : SameCore s s' :=
+  ⟨f.connected, f.producers, f.lostPending, f.lostMid, f.recon, f.consumers, f.cfg⟩
+
+theorem frames_handle (s : St) (f : Feed) : Frames s (handle s f).1 := by
+  cases f <;> exact ⟨rfl, rfl, rfl, rfl, rfl, Nat.le_refl _, rfl, rfl, rfl, rfl, rfl, rfl, rfl, rfl, rfl⟩
+
+theorem frames_latchR (s : St) : Frames s (latchR s) := by
+  unfold latchR; split <;> exact ⟨rfl, rfl, rfl, rfl, rfl, Nat.le_refl _, rfl, rfl, rfl, rfl, rfl, rfl, rfl, rfl, rfl⟩
+
+theorem frames_finishFrame (s : St) (f : Feed) : Frames s (finishFrame s f).1 := by
+  unfold finishFrame
+  split
+  · exact ⟨rfl, rfl, rfl, rfl, rfl, Nat.le_refl _, rfl, rfl, rfl, rfl, rfl, rfl, rfl, rfl, rfl⟩
+  · rename_i ad k _
+    have h1 : Frames s (publish s ad) := ⟨rfl, rfl, rfl, rfl, rfl, Nat.le_refl _, rfl, rfl, rfl, rfl, rfl, rfl, rfl, rfl, rfl⟩
+    have h2 := frames_handle (publish s ad) f
+    have h3 : Frames (handle (publish s ad) f).1 { (handle (publish s ad) f).1 with rUnf := (handle (publish s ad) f).1.rUnf - 1 } :=
+      ⟨rfl, rfl, rfl, rfl, rfl, Nat.le_refl _, rfl, rfl, rfl, rfl, rfl, rfl, rfl, rfl, rfl⟩
+    have h4 := frames_latchR { (handle (publish s ad) f).1 with rUnf := (handle (publish s ad) f).1.rUnf - 1 }
+    have h := h1.trans (h2.trans (h3.trans h4))
+    simp only []
+    split
+    · exact h
+    · exact h.trans ⟨rfl, rfl, rfl, rfl, rfl, Nat.sub_le _ _, rfl, rfl, rfl, rfl, rfl, rfl, rfl, rfl, rfl⟩
+
+theorem frames_enter (s : St) (ad : Nat) : Frames s (enter s ad).1 := by
+  unfold enter; split <;> exact ⟨rfl, rfl, rfl, rfl, rfl, Nat.le_refl _, rfl, rfl, rfl, rfl, rfl, rfl, rfl, rfl, rfl⟩
+
+theorem frames_process (s : St) (f : Feed) : Frames s (process s f).1 := by
+  unfold process
+  split
+  · exact ⟨rfl, rfl, rfl, rfl, rfl, Nat.le_refl _, rfl, rfl, rfl, rfl, rfl, rfl, rfl, rfl, rfl⟩
+  · rename_i ad k _
+    simp only []
+    split
+    · exact frames_enter s ad
+    · exact (frames_enter s ad).trans (frames_finishFrame _ f)
+
+theorem frames_take (s : St) : Frames s (take s).1 := by
+  unfold take
+  split
+  · exact ⟨rfl, rfl, rfl, rfl, rfl, Nat.le_refl _, rfl, rfl, rfl, rfl, rfl, rfl, rfl, rfl, rfl⟩
+  · rename_i f rest _
+    split
+    · exact ⟨rfl, rfl, rfl, rfl, rfl, Nat.le_refl _, rfl, rfl, rfl, rfl, rfl, rfl, rfl, rfl, rfl⟩
+    · split
+      · exact ⟨rfl, rfl, rfl, rfl, rfl, Nat.le_refl _, rfl, rfl, rfl, rfl, rfl, rfl, rfl, rfl, rfl⟩
+      · have h0 : Frames s { s with readQ := rest } := ⟨rfl, rfl, rfl, rfl, rfl, Nat.le_refl _, rfl, rfl, rfl, rfl, rfl, rfl, rfl, rfl, rfl⟩
+        have h1 := frames_process { s with readQ := rest } f
+        simp only []
+        split
+        · exact (h0.trans h1).trans (⟨rfl, rfl, rfl, rfl, rfl, Nat.le_refl _, rfl, rfl, rfl, rfl, rfl, rfl, rfl, rfl, rfl⟩)
+        · exact h0.trans h1
+
+theorem frames_finishAll (l : List Feed) (s : St) : Frames s (finishAll l s).1 := by
+  induction l generalizing s with
+  | nil => exact ⟨rfl, rfl, rfl, rfl, rfl, Nat.le_refl _, rfl, rfl, rfl, rfl, rfl, rfl, rfl, rfl, rfl⟩
+  | cons f fs ih => exact (frames_process s f).trans (ih _)
+
+theorem frames_release (s : St) : Frames s (release s).1 := by
+  unfold release
+  exact Frames.trans (b := { s with gates := [], hand := [] }) (⟨rfl, rfl, rfl, rfl, rfl, Nat.le_refl _, rfl, rfl, rfl, rfl, rfl, rfl, rfl, rfl, rfl⟩) (frames_finishAll _ _)
+
+theorem frames_gateEv (s : St) (a : Nat) : Frames s (gateEv s a) := by
+  unfold gateEv; split <;> exact ⟨rfl, rfl, rfl, rfl, rfl, Nat.le_refl _, rfl, rfl, rfl, rfl, rfl, rfl, rfl, rfl, rfl⟩
 
 /-! ### the producer -/
 
@@ -132,11 +230,11 @@ theorem inv_prodIO' {s : St} (h : Inv s) (hp : s.producers > 0) : Inv (prodIO' s
   unfold prodIO'
   split
   · split
-    · exact h.of_same ⟨rfl, rfl, rfl, rfl, rfl, rfl, rfl⟩
-    · have h2 : Inv { s with writeQ := ‹List Nat› } := h.of_same ⟨rfl, rfl, rfl, rfl, rfl, rfl, rfl⟩
+    · exact h.of_same ⟨rfl, rfl, rfl, rfl, rfl, Nat.le_refl _, rfl⟩
+    · have h2 : Inv { s with writeQ := ‹List Nat› } := h.of_same ⟨rfl, rfl, rfl, rfl, rfl, Nat.le_refl _, rfl⟩
       exact inv_prodFault h2 hp
-    · exact h.of_same ⟨rfl, rfl, rfl, rfl, rfl, rfl, rfl⟩
-  · exact h.of_same ⟨rfl, rfl, rfl, rfl, rfl, rfl, rfl⟩
+    · exact h.of_same ⟨rfl, rfl, rfl, rfl, rfl, Nat.le_refl _, rfl⟩
+  · exact h.of_same ⟨rfl, rfl, rfl, rfl, rfl, Nat.le_refl _, rfl⟩
 
 theorem inv_prodIO {s : St} (h : Inv s) (hp : s.producers > 0) : Inv (prodIO s).1 :=
   (inv_prodIO' h hp).of_same (same_latch _)
@@ -148,7 +246,10 @@ theorem inv_feed {s : St} (h : Inv s) (f : Feed) : Inv (feed s f).1 := by
   · rename_i hg
     have hp : s.producers > 0 := by
       simp only [not_or] at hg; omega
-    exact (inv_prodIO h hp).of_same (same_handle _ f)
+    have hi := inv_prodIO h hp
+    split
+    · exact hi.of_same ⟨rfl, rfl, rfl, rfl, rfl, Nat.le_refl _, rfl⟩
+    · exact hi
 
 
 /-! ### loss handling -/
@@ -222,7 +323,7 @@ theorem inv_cancelConn {s : St} (h : Inv s) : Inv (cancelConn s) := by
   · exact h
 
 theorem same_beginJoin (s : St) : SameCore s (beginJoin s) :=
-  SameCore.trans (b := { s with closing := .joining s.now }) ⟨rfl, rfl, rfl, rfl, rfl, rfl, rfl⟩ (same_latch _)
+  SameCore.trans (b := { s with closing := .joining s.now, rj := s.rUnf == 0 }) ⟨rfl, rfl, rfl, rfl, rfl, Nat.le_refl _, rfl⟩ (same_latch _)
 
 theorem inv_closeEv {s : St} (h : Inv s) : Inv (closeEv s).1 := by
   unfold closeEv
@@ -231,7 +332,7 @@ theorem inv_closeEv {s : St} (h : Inv s) : Inv (closeEv s).1 := by
   · exact (inv_cancelConn h).of_same (same_beginJoin _)
 
 theorem inv_finishClose {s : St} (h : Inv s) (t0 : Nat) : Inv (finishClose s t0).1 :=
-  h.of_same ⟨rfl, rfl, rfl, rfl, rfl, rfl, rfl⟩
+  h.of_same ⟨rfl, rfl, rfl, rfl, rfl, Nat.le_refl _, rfl⟩
 
 
 theorem inv_of_fresh {s : St} (h : Fresh s) : Inv s := by
@@ -249,7 +350,9 @@ theorem inv_shutdownTail {s : St} (hp : s.producers = 0) (hl : s.lostPending = f
 theorem inv_shutdownRun {s : St} (h : Inv s) : Inv (shutdownRun s).1 := by
   unfold shutdownRun
   split
-  · apply inv_shutdownTail <;> first | rfl | exact Nat.zero_le _
+  · split
+    · apply inv_shutdownTail <;> first | rfl | exact Nat.zero_le _
+    · exact h
   · exact h
 
 /-! ### timers and the step function -/
@@ -318,14 +421,14 @@ theorem inv_fire {s : St} (h : Inv s) (k : Timer) : Inv (fire s k).1 := by
       | cwcloseTO =>
         simp only []
         split
-        · exact h.of_same ⟨rfl, rfl, rfl, rfl, rfl, rfl, rfl⟩
+        · exact h.of_same ⟨rfl, rfl, rfl, rfl, rfl, Nat.le_refl _, rfl⟩
         · exact h
 
 
 theorem inv_step {s : St} (h : Inv s) (e : Ev) : Inv (step s e).1 := by
   unfold step
   split
-  · split <;> first | exact h | exact h.of_same ⟨rfl, rfl, rfl, rfl, rfl, rfl, rfl⟩
+  · split <;> first | exact h | exact h.of_same ⟨rfl, rfl, rfl, rfl, rfl, Nat.le_refl _, rfl⟩
   · cases e with
     | connect =>
       simp only []
@@ -341,12 +444,12 @@ theorem inv_step {s : St} (h : Inv s) (e : Ev) : Inv (step s e).1 := by
       split
       · rename_i hg; exact inv_prodFault h hg.1
       · exact h
-    | setDrain m => simp only []; split <;> first | exact h | exact h.of_same ⟨rfl, rfl, rfl, rfl, rfl, rfl, rfl⟩
-    | setClose m => simp only []; split <;> first | exact h | exact h.of_same ⟨rfl, rfl, rfl, rfl, rfl, rfl, rfl⟩
-    | enq n => exact h.of_same ⟨rfl, rfl, rfl, rfl, rfl, rfl, rfl⟩
+    | setDrain m => simp only []; split <;> first | exact h | exact h.of_same ⟨rfl, rfl, rfl, rfl, rfl, Nat.le_refl _, rfl⟩
+    | setClose m => simp only []; split <;> first | exact h | exact h.of_same ⟨rfl, rfl, rfl, rfl, rfl, Nat.le_refl _, rfl⟩
+    | enq n => exact h.of_same ⟨rfl, rfl, rfl, rfl, rfl, Nat.le_refl _, rfl⟩
     | park t => exact h.of_same (same_park s t)
     | close => exact inv_closeEv h
-    | advance dt => simp only []; split <;> first | exact h | exact h.of_same ⟨rfl, rfl, rfl, rfl, rfl, rfl, rfl⟩
+    | advance dt => simp only []; split <;> first | exact h | exact h.of_same ⟨rfl, rfl, rfl, rfl, rfl, Nat.le_refl _, rfl⟩
     | tick k => exact inv_fire h k
     | prodStart =>
       simp only []
@@ -357,6 +460,9 @@ theorem inv_step {s : St} (h : Inv s) (e : Ev) : Inv (step s e).1 := by
     | lostRun2 => exact inv_lostRun2 h
     | shutdownRun => exact inv_shutdownRun h
     | setupGo => exact h.of_same (same_setupGo s)
+    | gate a => exact h.of_same (frames_gateEv s a).same
+    | release => exact h.of_same (frames_release s).same
+    | take => exact h.of_same (frames_take s).same
 
 theorem inv_run {s : St} (h : Inv s) (es : List Ev) : Inv (run s es).1 := by
   induction es generalizing s with
@@ -491,10 +597,15 @@ theorem samew_prodIO (s : St) : SameW s (prodIO s).1 := (samew_prodIO' s).trans 
 theorem samew_handle (s : St) (f : Feed) : SameW s (handle s f).1 := by
   cases f <;> exact ⟨rfl, rfl, rfl, rfl, id⟩
 
+theorem Frames.samew {s s' : St} (f : Frames s s') : SameW s s' :=
+  ⟨f.connected, f.lostMid, f.writer, f.wopen, fun h => by rw [f.closing] at h; exact h⟩
+
 theorem samew_feed (s : St) (f : Feed) : SameW s (feed s f).1 := by
   unfold feed; split
   · exact ⟨rfl, rfl, rfl, rfl, id⟩
-  · exact (samew_prodIO s).trans (samew_handle _ f)
+  · split
+    · exact (samew_prodIO s).trans ⟨rfl, rfl, rfl, rfl, id⟩
+    · exact samew_prodIO s
 
 theorem samew_fireSetup (s : St) (a : Nat) : SameW s (fireSetup s a).1 := by
   unfold fireSetup
@@ -517,7 +628,7 @@ theorem samew_closeEv (s : St) : SameW s (closeEv s).1 := by
     simp only [not_or, Decidable.not_not] at hg
     have h1 : SameW s (cancelConn s) := by unfold cancelConn; split <;> exact ⟨rfl, rfl, rfl, rfl, id⟩
     have h2 : SameW (cancelConn s) (beginJoin (cancelConn s)) :=
-      SameW.trans (b := { cancelConn s with closing := .joining (cancelConn s).now })
+      SameW.trans (b := { cancelConn s with closing := .joining (cancelConn s).now, rj := (cancelConn s).rUnf == 0 })
         ⟨rfl, rfl, rfl, rfl, fun _ => by
           have : (cancelConn s).closing = s.closing := by unfold cancelConn; split <;> rfl
           rw [this, hg.1]; rfl⟩ (samew_latch _)
@@ -636,9 +747,14 @@ theorem winv_step {s : St} (hi : Inv s) (h : WInv s) (e : Ev) : WInv (step s e).
     | shutdownRun =>
       simp only [shutdownRun]
       split
-      · exact winv_shutdownTail _ _
+      · split
+        · exact winv_shutdownTail _ _
+        · exact h
       · exact h
     | setupGo => exact h.of_same (samew_setupGo s)
+    | gate a => exact h.of_same (frames_gateEv s a).samew
+    | release => exact h.of_same (frames_release s).samew
+    | take => exact h.of_same (frames_take s).samew
 
 theorem winv_run {s : St} (hi : Inv s) (h : WInv s) (es : List Ev) : WInv (run s es).1 := by
   induction es generalizing s with
@@ -665,13 +781,13 @@ def nAnnFalse (l : List Out) : Nat := l.countP isAnnFalse
 theorem countP_annAll (s : St) (v f : Bool) (p : Out → Bool) (hp : ∀ a, p (.ann a v f) = false) :
     (annAll s v f).countP p = 0 := by
   unfold annAll
-  induction s.devices with
+  induction published s with
   | nil => rfl
   | cons d ds ih => simp [List.countP_cons, hp, ih]
 
-theorem annAll_false_count (s : St) : nAnnFalse (annAll s false false) = s.devices.length := by
+theorem annAll_false_count (s : St) : nAnnFalse (annAll s false false) = (published s).length := by
   unfold nAnnFalse annAll
-  induction s.devices with
+  induction published s with
   | nil => rfl
   | cons d ds ih => simp [List.countP_cons, isAnnFalse, ih]
 
@@ -754,6 +870,48 @@ theorem quiet_handle (s : St) (f : Feed) : Quiet (handle s f).2 := by
     simp only [handle, ensureDev]
     split <;> simp [Quiet, nFault, nWclose, nOpen, nAnnFalse, List.countP_cons, isFault, isWclose, isOpenCall, isAnnFalse]
 
+theorem quiet_put (a k : Nat) : Quiet [Out.put a k] := by
+  simp [Quiet, nFault, nWclose, nOpen, nAnnFalse, List.countP_cons, isFault, isWclose, isOpenCall, isAnnFalse]
+
+theorem quiet_finishFrame (s : St) (f : Feed) : Quiet (finishFrame s f).2 := by
+  unfold finishFrame
+  split
+  · exact quiet_nil
+  · exact quiet_handle _ f
+
+theorem quiet_process (s : St) (f : Feed) : Quiet (process s f).2.1 := by
+  have qe : ∀ ad, Quiet (enter s ad).2.1 := by
+    intro ad
+    unfold enter
+    split
+    · exact quiet_nil
+    · simp [Quiet, nFault, nWclose, nOpen, nAnnFalse, List.countP_cons, isFault, isWclose, isOpenCall, isAnnFalse]
+  unfold process
+  split
+  · exact quiet_nil
+  · rename_i ad k _
+    simp only []
+    split
+    · exact qe ad
+    · exact (qe ad).append (quiet_finishFrame _ f)
+
+theorem quiet_take (s : St) : Quiet (take s).2 := by
+  unfold take
+  split
+  · exact quiet_nil
+  · split
+    · exact quiet_nil
+    · split
+      · exact quiet_nil
+      · exact quiet_process _ _
+
+theorem quiet_finishAll (l : List Feed) (s : St) : Quiet (finishAll l s).2 := by
+  induction l generalizing s with
+  | nil => exact quiet_nil
+  | cons f fs ih => exact (quiet_process s f).append (ih _)
+
+theorem quiet_release (s : St) : Quiet (release s).2 := quiet_finishAll _ _
+
 /-- loss handlings that are scheduled or half done -/
 def pend (s : St) : Nat := (if s.lostPending then 1 else 0) + (if s.lostMid then 1 else 0)
 
@@ -768,6 +926,8 @@ theorem SameP.pend {s s' : St} (c : SameP s s') : pend s' = pend s := by
 
 theorem SameP.trans {a b c : St} (h1 : SameP a b) (h2 : SameP b c) : SameP a c :=
   ⟨h2.lostPending.trans h1.lostPending, h2.lostMid.trans h1.lostMid, h2.closing.trans h1.closing⟩
+
+theorem Frames.samep {s s' : St} (f : Frames s s') : SameP s s' := ⟨f.lostPending, f.lostMid, f.closing⟩
 
 theorem samep_latch_no {s : St} (h : s.closing = .no) : latch s = s := by
   unfold latch; rw [h]
@@ -911,15 +1071,14 @@ theorem step_balance {s : St} (hi : Inv s) (hw : WInv s) (hcl : s.closing = .no)
       have e1 : prodIO s = prodIO' s := by
         simp only [prodIO, samep_latch_no hcl1]
       rw [e1]
-      have sh := samep_handle (prodIO' s).1 f
-      have qh := quiet_handle (prodIO' s).1 f
-      constructor
-      · show nFault ((prodIO' s).2 ++ (handle (prodIO' s).1 f).2) + pend s
-            = nWclose ((prodIO' s).2 ++ (handle (prodIO' s).1 f).2) + pend (handle (prodIO' s).1 f).1
-        rw [nFault_append, nWclose_append, qh.1, qh.2.1, sh.pend]
-        have := b1.bal; omega
-      · show (handle (prodIO' s).1 f).1.closing = s.closing
-        rw [sh.closing, b1.closing]
+      split
+      · rename_i ad k _
+        constructor
+        · show nFault ((prodIO' s).2 ++ [Out.put ad k]) + pend s = nWclose ((prodIO' s).2 ++ [Out.put ad k]) + pend (prodIO' s).1
+          rw [nFault_append, nWclose_append, (quiet_put ad k).1, (quiet_put ad k).2.1]
+          have := b1.bal; omega
+        · exact b1.closing
+      · exact b1
   | readFault =>
     simp only []
     split
@@ -1030,6 +1189,9 @@ theorem step_balance {s : St} (hi : Inv s) (hw : WInv s) (hcl : s.closing = .no)
       · exact f4
   | shutdownRun => simp only [shutdownRun, hcl]; exact bal_refl s
   | setupGo => exact bal_of_samep (samep_setupGo s) (quiet_setupGo s)
+  | gate a => exact bal_of_samep (frames_gateEv s a).samep quiet_nil
+  | release => exact bal_of_samep (frames_release s).samep (quiet_release s)
+  | take => exact bal_of_samep (frames_take s).samep (quiet_take s)
 
 
 /-! ### the device map only grows -/
@@ -1130,7 +1292,71 @@ theorem sa_setupGo (s : St) : SameAddrs s (setupGo s).1 := by
   · rfl
 
 theorem sa_park (s : St) (t : Target) : SameAddrs s (park s t) := by
-  cases t <;> exact map_addr_updDev _ _ _ (fun _ => rfl)
+  cases t with
+  | dev a => exact map_addr_updDev _ _ _ (fun d => by split <;> rfl)
+  | mixer i => exact map_addr_updDev _ _ _ (fun _ => rfl)
+  | thermo i => exact map_addr_updDev _ _ _ (fun _ => rfl)
+
+theorem addrs_publish (s : St) (ad : Nat) : addrs (publish s ad) = addrs s :=
+  map_addr_updDev _ _ _ (fun _ => rfl)
+
+theorem addrs_latchR (s : St) : addrs (latchR s) = addrs s := by unfold latchR; split <;> rfl
+
+theorem addrs_finishFrame (s : St) (f : Feed) : addrs s <+: addrs (finishFrame s f).1 := by
+  unfold finishFrame
+  split
+  · exact List.prefix_refl _
+  · rename_i ad k _
+    have h1 : addrs s <+: addrs (handle (publish s ad) f).1 := by
+      have := addrs_handle (publish s ad) f
+      rw [addrs_publish] at this; exact this
+    have h2 : addrs (latchR { (handle (publish s ad) f).1 with rUnf := (handle (publish s ad) f).1.rUnf - 1 })
+        = addrs (handle (publish s ad) f).1 := addrs_latchR _
+    simp only []
+    split
+    · rw [h2]; exact h1
+    · show addrs s <+: addrs (latchR { (handle (publish s ad) f).1 with rUnf := (handle (publish s ad) f).1.rUnf - 1 })
+      rw [h2]; exact h1
+
+theorem addrs_enter (s : St) (ad : Nat) : addrs s <+: addrs (enter s ad).1 := by
+  unfold enter
+  split
+  · exact List.prefix_refl _
+  · show s.devices.map Dev.addr <+: (s.devices ++ [newDev ad]).map Dev.addr
+    rw [List.map_append]; exact List.prefix_append _ _
+
+theorem addrs_process (s : St) (f : Feed) : addrs s <+: addrs (process s f).1 := by
+  unfold process
+  split
+  · exact List.prefix_refl _
+  · rename_i ad k _
+    simp only []
+    split
+    · exact addrs_enter s ad
+    · exact List.IsPrefix.trans (addrs_enter s ad) (addrs_finishFrame _ f)
+
+theorem addrs_take (s : St) : addrs s <+: addrs (take s).1 := by
+  unfold take
+  split
+  · exact List.prefix_refl _
+  · rename_i f rest _
+    split
+    · exact List.prefix_refl _
+    · split
+      · exact List.prefix_refl _
+      · have h := addrs_process { s with readQ := rest } f
+        simp only []
+        split
+        · exact h
+        · exact h
+
+theorem addrs_finishAll (l : List Feed) (s : St) : addrs s <+: addrs (finishAll l s).1 := by
+  induction l generalizing s with
+  | nil => exact List.prefix_refl _
+  | cons f fs ih => exact List.IsPrefix.trans (addrs_process s f) (ih _)
+
+theorem addrs_release (s : St) : addrs s <+: addrs (release s).1 :=
+  addrs_finishAll s.hand { s with gates := [], hand := [] }
 
 theorem sa_cancelProto (s : St) : SameAddrs s (cancelProto s) := map_addr_map _ _ (fun _ => rfl)
 
@@ -1187,7 +1413,9 @@ theorem addrs_step (s : St) (e : Ev) : addrs s <+: addrs (step s e).1 := by
       simp only [feed]
       split
       · exact List.prefix_refl _
-      · exact List.IsPrefix.trans (sa_prodIO s).prefix (addrs_handle _ f)
+      · split
+        · exact (sa_prodIO s).prefix
+        · exact (sa_prodIO s).prefix
     | readFault => simp only []; split <;> exact List.prefix_refl _
     | setDrain m => simp only []; split <;> exact List.prefix_refl _
     | setClose m => simp only []; split <;> exact List.prefix_refl _
@@ -1214,9 +1442,14 @@ theorem addrs_step (s : St) (e : Ev) : addrs s <+: addrs (step s e).1 := by
     | shutdownRun =>
       simp only [shutdownRun]
       split
-      · exact ((sa_cancelProto s).trans' (sa_shutdownTail _ _)).prefix
+      · split
+        · exact ((sa_cancelProto s).trans' (sa_shutdownTail _ _)).prefix
+        · exact List.prefix_refl _
       · exact List.prefix_refl _
     | setupGo => exact (sa_setupGo s).prefix
+    | gate a => simp only [gateEv]; split <;> exact List.prefix_refl _
+    | release => exact addrs_release s
+    | take => exact addrs_take s
 
 theorem addrs_run (s : St) (es : List Ev) : addrs s <+: addrs (run s es).1 := by
   induction es generalizing s with
@@ -1250,7 +1483,9 @@ theorem calm_feed (s : St) (f : Feed) : Calm (feed s f).2 := by
   simp only [feed]
   split
   · exact calm_nil
-  · exact (calm_prodIO' s).append (quiet_handle _ f).calm
+  · split
+    · exact (calm_prodIO' s).append (quiet_put _ _).calm
+    · exact calm_prodIO' s
 
 /-- only `connect()`, the loss handler (both halves, and its continuation after a hung
 `wait_closed`), the back-off timer and `shutdown()` close transports, call `_open_connection`
@@ -1301,5 +1536,8 @@ theorem calm_step (s : St) (e : Ev)
     | lostRun2 => exact absurd rfl h3
     | shutdownRun => exact absurd rfl h4
     | setupGo => exact (quiet_setupGo s).calm
+    | gate a => exact calm_nil
+    | release => exact (quiet_release s).calm
+    | take => exact (quiet_take s).calm
 
 end PlumVerif.Conn
